@@ -64,6 +64,38 @@ def _discover_flags(ctx):
             FLAGNAMES["exit"] = fl.pop()
 
 
+_COUNTER = {}
+
+
+def counter_field(ctx, ci):
+    """name of the integer field of a small counter class: initialised to a constant number by the constructor and
+    changed only by augmented assignment in the class's own methods; None if ci is not such a class"""
+    if ci.key in _COUNTER:
+        return _COUNTER[ci.key]
+    res = None
+    init = ci.methods.get("__init__")
+    if init is not None and len(ci.methods) <= 6:
+        nums = set()
+        for p in ctx.paths(init, ci, depth=0)[0]:
+            for e in p.evs("store"):
+                v = e.d["value"]
+                if q.self_field(e.d["target"]) and isinstance(v, tuple) and v[0] == "const" and type(v[1]) in (int, float):
+                    nums.add(e.d["target"][2])
+        augs = set()
+        for m in ci.methods.values():
+            if m is init:
+                continue
+            for p in ctx.paths(m, ci, depth=0)[0]:
+                for e in p.evs("store"):
+                    if q.self_field(e.d["target"]) and e.d.get("aug") in ("+", "-"):
+                        augs.add(e.d["target"][2])
+        both = nums & augs
+        if len(both) == 1:
+            res = both.pop()
+    _COUNTER[ci.key] = res
+    return res
+
+
 def discover(ctx):
     loops = []
     _discover_flags(ctx)
@@ -110,7 +142,7 @@ def discover(ctx):
                             inner = ftypes.get(s[1][2], set())
                             for tid in inner:
                                 ci = ctx.types.cls_of(tid)
-                                if ci is not None and ci.name == "AtomicInt" and s[2] == "value":
+                                if ci is not None and s[2] == counter_field(ctx, ci):
                                     li.counters.add((s[1][2], s[2]))
         if not li.scanned:
             raise AnalysisError("worker loop %s: no scanned container found" % target.qualname)
